@@ -13,7 +13,7 @@ let shard, nshards =
   | _ :: "gen" :: _ :: _ :: _ :: a :: b :: _ -> (try int_of_string a, int_of_string b with _ -> 0, 1)
   | _ -> 0, 1
 let idx = ref 0
-let mine () = let k = !idx in incr idx; k mod nshards = shard
+let mine () = incr idx; Streams.mine ()
 let both emit case (f : bool -> string) =
   if mine () then emit case (f true) (f false) else emit case "" ""
 let one emit case (f : unit -> string) =
